@@ -479,7 +479,8 @@ Theorem codegen_term_semantics_np D t l steps :
               step_val (scheme_vals [] inner) o (renv p).
 Proof. intros HD HS Hidx Hsch Hok H. unfold gen_term in H.
   destruct (format_prefactor hf Einsum (ct_nums t) (ct_syms t)) as [pf| |] eqn:Epf; try discriminate.
-  simpl in H. rewrite Hidx, Hsch in H. simpl in H.
+  simpl in H. rewrite Hidx in H. simpl in H.
+  destruct (scheme_guard (ct_objs t)) as [g| |]; try discriminate. simpl in H. rewrite Hsch in H. simpl in H.
   destruct (format_scaling_comment Einsum (ct_objspaces t) steps) as [cm| |]; try discriminate. simpl in H.
   destruct (split_inner_outer steps) as [inner outer] eqn:Esp.
   destruct (build_cache cfg Einsum [] inner) as [cache| |] eqn:Ebc; try discriminate. simpl in H.
@@ -499,11 +500,21 @@ Proof. intros HD HS Hidx Hsch Hok H. unfold gen_term in H.
 Definition numarg_val (a : numarg) : K S :=
   match a with NRat p q => ofQ S (Z.of_N p # q) | NSqrt n => sqrtv T n | NOther => 0 end.
 Fixpoint kpow (x : K S) (n : nat) : K S := match n with O => 1 | Datatypes.S n' => x * kpow x n' end.
-Fixpoint syms_val (syms : list (string * nat)) : K S :=
+Fixpoint syms_val (syms : list (string * Z)) : K S :=
   match syms with
   | [] => 1
-  | (s, n) :: r => kpow (symv T s) n * syms_val r
+  | (s, e) :: r => kpow (symv T s) (Z.to_nat e) * syms_val r
   end.
+(* the symbolic prefactor with divisions: x^e, (1/x)^(-e) *)
+Fixpoint syms_true (syms : list (string * Z)) : K S :=
+  match syms with
+  | [] => 1
+  | (s, e) :: r => (if Z.leb 0 e then kpow (symv T s) (Z.to_nat e)
+                    else kpow (kinv S (symv T s)) (Z.to_nat (- e))) * syms_true r
+  end.
+Lemma syms_nonneg_true syms : syms_nonneg syms = true -> syms_val syms = syms_true syms.
+Proof. induction syms as [|[s e] r IH]; simpl; [reflexivity|]. intros H. apply andb_true_iff in H.
+  destruct H as [H1 H2]. simpl in H1. rewrite H1, (IH H2). reflexivity. Qed.
 
 Lemma format_python_num_val a f : format_python_num hf a = Ok f -> pfac_val S T f = numarg_val a.
 Proof. destruct a as [p q|n|]; simpl; try discriminate.
@@ -527,15 +538,15 @@ Proof. intros Hf. revert fs. induction l as [|a r IH]; simpl; intros fs H; [inve
   rewrite (Hf a x E), (IH xs eq_refl). reflexivity. Qed.
 
 Lemma sym_names_val syms : kprod (map (pfac_val S T) (sym_names syms)) = syms_val syms.
-Proof. induction syms as [|[s n] r IH]; simpl; [reflexivity|].
+Proof. induction syms as [|[s e] r IH]; simpl; [reflexivity|].
   rewrite map_app, kprod_app, IH. f_equal.
-  clear. induction n as [|n IHn]; simpl; [reflexivity|rewrite IHn; reflexivity]. Qed.
+  generalize (Z.to_nat e) as n. clear. induction n as [|n IHn]; simpl; [reflexivity|rewrite IHn; reflexivity]. Qed.
 
 (** the printed prefactor (both number formats, sqrt, symbols) denotes the
     number prefactor of the term times its symbols *)
 Theorem prefactor_value be nums syms pf : format_prefactor hf be nums syms = Ok pf ->
   kprod (map (pfac_val S T) pf) = kprod (map numarg_val nums) * syms_val syms.
-Proof. unfold format_prefactor.
+Proof. unfold format_prefactor. destruct (syms_nonneg syms); simpl; try discriminate.
   destruct (rmap _ nums) as [nu| |] eqn:En; try discriminate. simpl. intros H; inversion H; subst.
   rewrite map_app, kprod_app, sym_names_val. f_equal.
   destruct be; eapply rmap_vals; try exact En; [apply format_python_num_val|apply format_cpp_num_val]. Qed.
@@ -1000,7 +1011,8 @@ Theorem codegen_term_semantics_lt D t l steps :
               step_val (scheme_vals [] inner) o (renv p).
 Proof. intros HD Hidx Hsch Hok H. unfold gen_term in H.
   destruct (format_prefactor hf Libtensor (ct_nums t) (ct_syms t)) as [pf| |] eqn:Epf; try discriminate.
-  simpl in H. rewrite Hidx, Hsch in H. simpl in H.
+  simpl in H. rewrite Hidx in H. simpl in H.
+  destruct (scheme_guard (ct_objs t)) as [g| |]; try discriminate. simpl in H. rewrite Hsch in H. simpl in H.
   destruct (format_scaling_comment Libtensor (ct_objspaces t) steps) as [cm| |]; try discriminate. simpl in H.
   destruct (split_inner_outer steps) as [inner outer] eqn:Esp.
   destruct (build_cache cfg Libtensor [] inner) as [cache| |] eqn:Ebc; try discriminate. simpl in H.
@@ -1012,6 +1024,74 @@ Proof. intros HD Hidx Hsch Hok H. unfold gen_term in H.
   destruct (codegen_step_semantics_lt D cache (scheme_vals [] inner) o e HD Hc Ho He) as [Hl [Hv Hd]].
   inversion H; subst l. exists inner, o, e, cm. simpl. repeat split; auto.
   intros tg p. unfold run_line; simpl. rewrite Hv. reflexivity. Qed.
+
+(* an emitted prefactor never hides a division: the code's own refusal
+   establishes syms_nonneg *)
+Theorem emitted_prefactor_nonneg be nums syms pf :
+  format_prefactor hf be nums syms = Ok pf -> syms_nonneg syms = true.
+Proof. unfold format_prefactor. destruct (syms_nonneg syms); simpl; [reflexivity|discriminate]. Qed.
+
+(* the prefactor is refused exactly for a division by a symbol or an
+   unsupported number *)
+Theorem refusal_exact_prefactor be nums syms :
+  format_prefactor hf be nums syms = Refuse <->
+  syms_nonneg syms = false \/
+  exists a, In a nums /\ (a = NOther \/ (exists n, a = NSqrt n) /\ hf = false).
+Proof. unfold format_prefactor. destruct (syms_nonneg syms); simpl.
+  - split.
+    + destruct (rmap _ nums) as [nu| |] eqn:En; simpl; try discriminate. intros _. right.
+      apply rmap_refuse in En. destruct En as [a [Ha Hr]]. exists a. split; [exact Ha|].
+      apply (refusal_exact_number be a). destruct be; exact Hr.
+    + intros [H|[a [Ha Hr]]]; [discriminate|].
+      rewrite (rmap_refuse_conv _ nums); [reflexivity| |].
+      * intros b _. destruct be, b as [p q|n|]; simpl; try discriminate;
+          try (destruct hf; discriminate);
+          repeat match goal with |- context [match ?x with _ => _ end] => destruct x end; discriminate.
+      * exists a. split; [exact Ha|]. apply (refusal_exact_number be a) in Hr. destruct be; exact Hr.
+  - split; auto. Qed.
+
+(* the printed prefactor denotes the full prefactor (with divisions) exactly
+   when no symbol has a negative exponent *)
+Theorem prefactor_value_exact be nums syms pf : syms_nonneg syms = true ->
+  format_prefactor hf be nums syms = Ok pf ->
+  kprod (map (pfac_val S T) pf) = kprod (map numarg_val nums) * syms_true syms.
+Proof. intros Hn H. rewrite (prefactor_value be nums syms pf H), (syms_nonneg_true syms Hn). reflexivity. Qed.
+
+(* unconditional on emitted output *)
+Theorem prefactor_value_emitted be nums syms pf :
+  format_prefactor hf be nums syms = Ok pf ->
+  kprod (map (pfac_val S T) pf) = kprod (map numarg_val nums) * syms_true syms.
+Proof. intros H. apply (prefactor_value_exact be nums syms pf); [|exact H].
+  apply (emitted_prefactor_nonneg be nums syms pf H). Qed.
+
+(* the scheme search refuses a term exactly if one of its non-number objects
+   has a negative exponent (division: symbols included, the test precedes the
+   symbol skip) or is neither symbol nor tensor nor delta *)
+Definition offending (o : okind * Z) : bool :=
+  match fst o with
+  | OkNumber => false
+  | OkOther => true
+  | _ => Z.ltb (snd o) 0
+  end.
+Theorem refusal_exact_guard objs :
+  (scheme_guard objs = Refuse <-> existsb offending objs = true) /\
+  (scheme_guard objs = Ok tt <-> existsb offending objs = false).
+Proof. induction objs as [|[k e] r [IH1 IH2]]; simpl.
+  - split; split; try discriminate; reflexivity.
+  - unfold offending at 1 3. simpl. destruct k; simpl.
+    + split; assumption.
+    + destruct (Z.ltb e 0); simpl; [split; split; try discriminate; reflexivity|split; assumption].
+    + destruct (Z.ltb e 0); simpl; [split; split; try discriminate; reflexivity|split; assumption].
+    + destruct (Z.ltb e 0); simpl; split; split; try discriminate; reflexivity. Qed.
+
+(* whenever a line with a contraction is emitted for a term, the term contains
+   no division and no symbol with negative exponent *)
+Theorem emitted_contraction_no_division be t l : ct_hasidx t = true ->
+  gen_term cfg hf be t = Ok l -> existsb offending (ct_objs t) = false.
+Proof. intros Hi H. unfold gen_term in H.
+  destruct (format_prefactor hf be (ct_nums t) (ct_syms t)); try discriminate. simpl in H.
+  rewrite Hi in H. simpl in H. destruct (scheme_guard (ct_objs t)) as [[]| |] eqn:E; try discriminate.
+  apply (proj2 (refusal_exact_guard (ct_objs t))). exact E. Qed.
 
 (* ------------------------------------------------------------------ *)
 (** * Whole program: blocks of lines under permutation operators *)
